@@ -10,17 +10,24 @@ import (
 	"verif/ev"
 )
 
-var known = ev.Matcher[Case]{}
+var known = ev.Matcher[Case]{
+	// a migration file that opens a transaction itself and fails inside it: the pooled connection stays inside that
+	// transaction, the restore's DELETE/VACUUM run in it ("cannot VACUUM from within a transaction") and what earlier
+	// statements created stays in the dev database
+	"file-opens-own-transaction-and-fails": func(c Case, err error) bool {
+		return c.FailKind == 2 && c.FailAt >= 0 && c.Dev == "empty" && strings.Contains(err.Error(), "did not hand the dev database back empty")
+	},
+}
 
 const rule = "real CLI, SQLite: commands {migrate diff, migrate validate --dev-url, migrate lint, schema apply --to file://schema.sql --dev-url, schema diff file:// -> file://} " +
-	"x dev database {empty file, file with tables+rows+index, file holding only a view, file with a table and a trigger, in-memory} x migration directories / SQL schemas of 1-3 files x 1-3 statements (tables with AUTOINCREMENT, indexes, views incl. view-only prefixes and end states, triggers) " +
+	"x dev database {empty file, file with tables+rows+index, file holding only a view, file with a table and a trigger, file holding a table named sqlitex, in-memory} x migration directories / SQL schemas of 1-3 files x 1-3 statements (tables with AUTOINCREMENT, indexes, views incl. view-only prefixes and end states, triggers) " +
 	"with a failing statement at every position or none; directory commands also with one file being a checkpoint (replay starts there) and, for lint, every window --latest N. Oracle (independent connection, full dump incl. sqlite_master and sqlite_ bookkeeping tables, rows, rowids; directory listing + SHA-256 of every file): " +
 	"non-empty dev => non-zero exit that says the database is not clean, dev dump unchanged; empty dev => dump after == dump before (no object left) whether the command succeeded or failed; " +
 	"directory files unchanged, except that migrate diff may add one file and rewrite atlas.sum. " +
 	"non-trivial = the replay executed >=1 statement on the dev database before the end/failure, or the dev database was non-empty; distinct key = (command, dev kind, shape, failure position)"
 
 var cmds = []string{"migrate-diff", "migrate-validate", "migrate-lint", "schema-apply", "schema-diff"}
-var devs = []string{"empty", "tables", "view", "trigger", "memory"}
+var devs = []string{"empty", "tables", "view", "trigger", "lookalike", "memory"}
 
 func TestCheck(t *testing.T) {
 	col := ev.New("C14", "exploration", rule)
@@ -31,8 +38,11 @@ func TestCheck(t *testing.T) {
 		if c.Ckpt > 0 {
 			col.Class(c.Cmd + "/with-checkpoint-file")
 		}
+		if c.FailKind > 0 && c.FailAt >= 0 {
+			col.Class(fmt.Sprintf("%s/fail-kind=%d", c.Cmd, c.FailKind))
+		}
 		if out.Executed > 0 || (c.Dev != "empty" && c.Dev != "memory") {
-			col.NonTrivial(fmt.Sprintf("%s|%s|%v|%d|%d|%d|%d", c.Cmd, c.Dev, c.Files, c.FailAt, c.Style, c.Ckpt, c.Latest))
+			col.NonTrivial(fmt.Sprintf("%s|%s|%v|%d|%d|%d|%d|%d", c.Cmd, c.Dev, c.Files, c.FailAt, c.Style, c.Ckpt, c.Latest, c.FailKind))
 		}
 		col.Sample(c.Cmd+"/"+c.Dev, c)
 		return err
@@ -63,6 +73,14 @@ func TestCheck(t *testing.T) {
 						}
 						if !ev.Each(col, "enumerated", Case{Cmd: cmd, Dev: dev, Files: sh, FailAt: fail, Style: style}, check, known) {
 							return
+						}
+						// other ways to fail: a state that cannot be read back, a file that opens its own transaction
+						if dev == "empty" && style == 0 && fail >= 0 {
+							for fk := 1; fk <= 2; fk++ {
+								if !ev.Each(col, "enumerated", Case{Cmd: cmd, Dev: dev, Files: sh, FailAt: fail, FailKind: fk}, check, known) {
+									return
+								}
+							}
 						}
 					}
 				}
@@ -109,6 +127,7 @@ func TestCheck(t *testing.T) {
 		}
 		c.FailAt = rapid.IntRange(-1, total-1).Draw(t, "fail")
 		c.Style = rapid.IntRange(0, 2).Draw(t, "style")
+		c.FailKind = rapid.SampledFrom([]int{0, 0, 1, 2}).Draw(t, "failkind")
 		if strings.HasPrefix(c.Cmd, "migrate-") && rapid.IntRange(0, 2).Draw(t, "withckpt") == 0 {
 			c.Ckpt = rapid.IntRange(1, len(c.Files)).Draw(t, "ckpt")
 			c.Latest = rapid.IntRange(1, len(c.Files)).Draw(t, "latest")
